@@ -57,7 +57,7 @@ func runC02(ctx *Ctx) {
 	maxc := 2
 	budget := 80 * time.Second
 	if ctx.Thorough {
-		maxc = 3
+		maxc = 4
 		budget = 14 * time.Minute
 	}
 	deadline := time.Now().Add(budget)
